@@ -162,8 +162,9 @@ func init() {
 	c06 := props["C06"]
 	c06.Quick = 48000
 	props["C06"] = c06
-	c05 := e1("fault_enumeration", 160, 8000, "one case = one simulated execution of a seeded program with ONE planned transport fault: for every base program the fault-free twin is run first, its transport calls are numbered per endpoint, and then the k-th call of each endpoint is failed for every k and every kind (read error, read error with data, write error after a partial write, peer close, local close); distinct = distinct SHA-256 of the director log; non-trivial = a message/response was delivered and a fault fired or a preemption happened")
+	c05 := e1("fault_enumeration", 320, 8000, "one case = one simulated execution of a seeded program with ONE planned transport fault: for every base program the fault-free twin is run first, its transport calls are numbered per endpoint, and then the k-th call of each endpoint is failed for every k and every kind (read error, read error with data, write error after a partial write, peer close, local close); distinct = distinct SHA-256 of the director log; non-trivial = a message/response was delivered and a fault fired or a preemption happened")
 	c05.Enumerate = "io-faults"
+	c05.QuickS = 60
 	props["C05"] = c05
 	c12 := e1("fault_enumeration", 160, 16000, "one case = one simulated execution of a seeded program with ONE planned close/cancel injected at an exact director step of the close-free twin run (quick: every 3rd step, thorough: every step, two kinds each): Conn.Close, concurrent double Conn.Close, cancel of the server context, transport closed underneath either side, listener failure; distinct = distinct SHA-256 of the director log")
 	c12.Enumerate = "close-steps"
